@@ -39,6 +39,7 @@ struct FaceSet {
     std::vector<std::vector<uint32_t>> lines;
     std::vector<gr_font *> fonts;
     unsigned nglyphs = 0;
+    bool own_texts = false;
     bool load(const std::string &p, const std::string &texts) {
         path = p;
         static const unsigned opts[3] = {gr_face_default, gr_face_preloadAll, gr_face_cacheCmap};
@@ -47,6 +48,12 @@ struct FaceSet {
         rep = repertoire(face[0], 0x20000);
         nglyphs = gr_face_n_glyphs(face[0]);
         if (!texts.empty()) lines = text_lines(texts, 4000);
+        else {
+            // a synthesised font may come with its own texts (budget-boundary strings computed by the generator)
+            std::string side = p.size() > 4 ? p.substr(0, p.size() - 4) + ".texts" : std::string();
+            std::vector<uint8_t> probe;
+            if (!side.empty() && read_file(side, probe)) { lines = text_lines(side, 4000); own_texts = true; }
+        }
         static const float ppms[] = {1.0f, 12.0f, 96.5f, 4096.0f};
         for (float p2 : ppms) fonts.push_back(LIB(gr_make_font(p2, face[0])));
         return true;
@@ -77,10 +84,11 @@ static void one_case(const Args &a, long k, FaceSet &fs, bool hostile, bool real
     // ---- text
     std::vector<uint32_t> t;
     int kind = int(r.below(10));
-    if (!fs.lines.empty() && kind < 4) {
+    if (!fs.lines.empty() && (kind < 4 || (fs.own_texts && kind < 8))) {
         t = r.pick(fs.lines);
-        if (t.size() > 6 && r.chance(0.5)) { size_t a0 = r.below(uint32_t(t.size() - 2)); size_t n = 1 + r.below(uint32_t(t.size() - a0)); t = std::vector<uint32_t>(t.begin() + long(a0), t.begin() + long(a0 + n)); }
-        if (r.chance(0.3)) for (size_t i = t.size(); i > 1; --i) std::swap(t[i - 1], t[r.below(uint32_t(i))]);     // permutation of a test line
+        if (fs.own_texts) {}
+        else if (t.size() > 6 && r.chance(0.5)) { size_t a0 = r.below(uint32_t(t.size() - 2)); size_t n = 1 + r.below(uint32_t(t.size() - a0)); t = std::vector<uint32_t>(t.begin() + long(a0), t.begin() + long(a0 + n)); }
+        if (!fs.own_texts && r.chance(0.3)) for (size_t i = t.size(); i > 1; --i) std::swap(t[i - 1], t[r.below(uint32_t(i))]);     // permutation of a test line
     } else {
         int maxlen = r.chance(0.03) ? (r.chance(0.3) ? 4000 : 500) : 64;
         t = random_text(r, fs.rep, maxlen, hostile || kind >= 8);
@@ -108,7 +116,7 @@ static void one_case(const Args &a, long k, FaceSet &fs, bool hostile, bool real
             }
         }
     }
-    bool illformed = hostile && r.chance(0.25);
+    bool illformed = hostile && !fs.own_texts && r.chance(0.25);
     Text tx;
     void *raw = nullptr;
     const void *buf;
